@@ -2,7 +2,7 @@
    harness operation N times, each in its own OS process; the observation is the list of the N outputs. *)
 From Coq Require Import String List Bool Arith.
 From Coca Require Import Lib.Sx Lib.Str Lib.Shape
-     Entry.C01 Entry.C03 Entry.C04 Entry.C10 Entry.C11 Entry.C12 Entry.C13 Entry.C15 Entry.C16 Entry.C18 Entry.C20.
+     Entry.C01 Entry.C03 Entry.C04 Entry.C07 Entry.C10 Entry.C11 Entry.C12 Entry.C13 Entry.C15 Entry.C16 Entry.C18 Entry.C20.
 Import ListNotations.
 Open Scope list_scope.
 Open Scope string_scope.
@@ -42,6 +42,7 @@ Definition model_of (report : string) : sx -> sx :=
   else if String.eqb report "C16" then c16_model
   else if String.eqb report "C18" then c18_model
   else if String.eqb report "C18svc" then (fun _ => A "no-model")
+  else if String.eqb report "C07" then c07_model
   else c20_model.
 
 Definition c08_model (x : sx) : sx := model_of (sx_str (sx_nth 0 x)) (sx_nth 1 x).
